@@ -47,17 +47,35 @@ def run_bringup(case):
     socketserver.TCPServer = _FakeTCPServer
     _FakeTCPServer.served = False
     outcome = None
+    # through the manager's real entry point (mgr.runner.ManagerRunner.run), which builds the protocol
+    # object and the server itself; only the outcome of TCPServer.run is recorded on the way
+    import types
+    import mgr.runner as runner
+
+    class RecTCPServer(server.TCPServer):
+        raised = False
+
+        def run(self):
+            try:
+                return super().run()
+            except server.TCPServerError:
+                RecTCPServer.raised = True
+                raise
+    real_srv, real_cfg = runner.TCPServer, runner.configure_logging
+    runner.TCPServer = RecTCPServer
+    runner.configure_logging = lambda path: None
+    opts = types.SimpleNamespace(logconfigfilepath=None, version_one=False, host="127.0.0.1", port=0)
     try:
         try:
-            server.TCPServer("127.0.0.1", 0, proto).run()
-            outcome = "BServes" if _FakeTCPServer.served else "BProtocolInterrupt"
-        except server.TCPServerError:
-            outcome = "BProtocolError"
+            runner.ManagerRunner("manager", lambda o: dongle, lambda o: pin).run(opts)
+            outcome = "BServes" if _FakeTCPServer.served else \
+                ("BProtocolError" if RecTCPServer.raised else "BProtocolInterrupt")
         except BaseException as e:
             outcome = "BOtherException"
             exc = type(e).__name__
     finally:
         socketserver.TCPServer = real
+        runner.TCPServer, runner.configure_logging = real_srv, real_cfg
     return {"outcome": outcome, "served": _FakeTCPServer.served, "trace": list(world.trace),
             "answers": list(world.answers),
             "pin_after": None if pin is None else (pin._pin, pin._needs_change)}
